@@ -31,6 +31,8 @@ W = [
  ("ml.v3.TreeEnsembleClassifier", call(ML, "TreeEnsembleClassifier", [None], [0]), "known", None),
  ("ml.v3.TreeEnsembleClassifier", call(ML, "TreeEnsembleClassifier", [None], [0], {"classlabels_strings": ["a", "b"]}), "known", None),
  ("ml.v3.TreeEnsembleRegressor", call(ML, "TreeEnsembleRegressor", [None], [0]), "known", None),
+ ("v17.BatchNormalization", call("spox.opset.ai.onnx.v17", "BatchNormalization",
+    [T(1, [2, 3, 4, 4]), T(1, [3]), T(1, [3]), T(1, [3]), T(1, [3])], [0, 1, 2, 3, 4]), "known", None),
  ("v17.Compress", call("spox.opset.ai.onnx.v17", "Compress", [None, T(9, ["K"])], [0, 1]), "fixed: 0124c20",
   "untyped-input-raises:Compress:TypeError"),
 ]
